@@ -610,91 +610,70 @@ pub fn debug_field(dbg: &str, key: &str) -> Option<String> {
     Some(rest[..end].trim().to_string())
 }
 
+/// Enum values are read through their Debug text (variant name, optional numeric payload): a
+/// variant that is removed, added or given a payload in the library changes what is decoded, not
+/// whether this harness compiles.
+pub fn vname<T: std::fmt::Debug>(x: &T) -> (String, Option<u64>) {
+    let d = format!("{x:?}");
+    let name: String = d.chars().take_while(|c| c.is_alphanumeric() || *c == '_').collect();
+    let payload = d[name.len()..].trim_start_matches('(').trim_end_matches(')').trim().parse::<u64>().ok();
+    (name, payload)
+}
+
+pub fn by_name<T: std::fmt::Debug>(x: &T, table: &[(&str, u64)]) -> u64 {
+    let (n, _) = vname(x);
+    table.iter().find(|(k, _)| *k == n).map(|(_, v)| *v).unwrap_or(9999)
+}
+
 fn cap_u(c: &Capability) -> Val {
-    Val::U(match c {
-        Capability::AG_UNCERTAIN => 0,
-        Capability::Reserved(v) => {
-            // the variant itself says 1..=3 and carries the value; both must agree with the bits
-            if (1..=3).contains(v) {
-                *v as u64
-            } else {
-                1000 + *v as u64
-            }
-        }
-        Capability::AG_GROUND => 4,
-        Capability::AG_AIRBORNE => 5,
-        Capability::AG_UNCERTAIN2 => 6,
-        Capability::AG_UNCERTAIN3 => 7,
-        #[allow(unreachable_patterns)]
+    let (n, payload) = vname(c);
+    Val::U(match n.as_str() {
+        "AG_UNCERTAIN" => 0,
+        // the variant itself says 1..=3 and carries the value; both must agree with the bits
+        "Reserved" => match payload {
+            Some(v) if (1..=3).contains(&v) => v,
+            Some(v) => 1000 + v,
+            None => 9998,
+        },
+        "AG_GROUND" => 4,
+        "AG_AIRBORNE" => 5,
+        "AG_UNCERTAIN2" => 6,
+        "AG_UNCERTAIN3" => 7,
         _ => 9999,
     })
 }
 
 fn fs_u(x: &FlightStatus) -> u64 {
-    match x {
-        FlightStatus::NoAlertNoSPIAirborne => 0,
-        FlightStatus::NoAlertNoSPIOnGround => 1,
-        FlightStatus::AlertNoSPIAirborne => 2,
-        FlightStatus::AlertNoSPIOnGround => 3,
-        FlightStatus::AlertSPIAirborneGround => 4,
-        FlightStatus::NoAlertSPIAirborneGround => 5,
-        FlightStatus::Reserved => 6,
-        FlightStatus::NotAssigned => 7,
-        #[allow(unreachable_patterns)]
-        _ => 9999,
-    }
+    by_name(x, &[("NoAlertNoSPIAirborne", 0), ("NoAlertNoSPIOnGround", 1), ("AlertNoSPIAirborne", 2), ("AlertNoSPIOnGround", 3), ("AlertSPIAirborneGround", 4), ("NoAlertSPIAirborneGround", 5), ("Reserved", 6), ("NotAssigned", 7)])
 }
 
 fn dr_u(x: &DownlinkRequest) -> u64 {
-    match x {
-        DownlinkRequest::None => 0,
-        DownlinkRequest::RequestSendCommB => 1,
-        DownlinkRequest::CommBBroadcastMsg1 => 4,
-        DownlinkRequest::CommBBroadcastMsg2 => 5,
-        DownlinkRequest::Unknown(v) => {
-            if matches!(v, 0 | 1 | 4 | 5) {
-                1000 + *v as u64
-            } else {
-                *v as u64
-            }
-        }
-        #[allow(unreachable_patterns)]
+    let (n, payload) = vname(x);
+    match n.as_str() {
+        "None" => 0,
+        "RequestSendCommB" => 1,
+        "CommBBroadcastMsg1" => 4,
+        "CommBBroadcastMsg2" => 5,
+        "Unknown" => match payload {
+            Some(v) if matches!(v, 0 | 1 | 4 | 5) => 1000 + v,
+            Some(v) => v,
+            None => 9998,
+        },
         _ => 9999,
     }
 }
 
 fn um(f: &mut Fields, x: &UtilityMessage) {
     u(f, "iis", x.iis as u64);
-    u(
-        f,
-        "ids",
-        match x.ids {
-            UtilityMessageType::NoInformation => 0,
-            UtilityMessageType::CommB => 1,
-            UtilityMessageType::CommC => 2,
-            UtilityMessageType::CommD => 3,
-            #[allow(unreachable_patterns)]
-            _ => 9999,
-        },
-    );
+    u(f, "ids", by_name(&x.ids, &[("NoInformation", 0), ("CommB", 1), ("CommC", 2), ("CommD", 3)]));
 }
 
 fn sign_u(x: &Sign) -> u64 {
-    match x {
-        Sign::Positive => 0,
-        Sign::Negative => 1,
-        #[allow(unreachable_patterns)]
-        _ => 9999,
-    }
+    by_name(x, &[("Positive", 0), ("Negative", 1)])
 }
 
 fn cpr_u(x: &CPRFormat) -> u64 {
-    match x {
-        CPRFormat::Even => 0,
-        CPRFormat::Odd => 1,
-        #[allow(unreachable_patterns)]
-        _ => 9999,
-    }
+    by_name(x, &[("Even", 0), ("Odd", 1)])
 }
 
 pub fn actual(frame: &Frame) -> Fields {
@@ -850,18 +829,7 @@ fn bds_actual(b: &BDS, f: &mut Fields) {
 
 fn alt_fields(a: &Altitude, f: &mut Fields) {
     u(f, "me.tc", a.tc as u64);
-    u(
-        f,
-        "me.ss",
-        match a.ss {
-            SurveillanceStatus::NoCondition => 0,
-            SurveillanceStatus::PermanentAlert => 1,
-            SurveillanceStatus::TemporaryAlert => 2,
-            SurveillanceStatus::SPICondition => 3,
-            #[allow(unreachable_patterns)]
-            _ => 9999,
-        },
-    );
+    u(f, "me.ss", by_name(&a.ss, &[("NoCondition", 0), ("PermanentAlert", 1), ("TemporaryAlert", 2), ("SPICondition", 3)]));
     u(f, "me.saf", a.saf_or_imf as u64);
     f.insert("me.alt".into(), a.alt.map(|x| Val::U(x as u64)).unwrap_or(Val::Absent));
     u(f, "me.t", a.t as u64);
@@ -888,13 +856,7 @@ fn om_actual(om: &OperationalMode, f: &mut Fields) {
 }
 
 fn version_u(v: &ADSBVersion) -> u64 {
-    match v {
-        ADSBVersion::DOC9871AppendixA => 0,
-        ADSBVersion::DOC9871AppendixB => 1,
-        ADSBVersion::DOC9871AppendixC => 2,
-        #[allow(unreachable_patterns)]
-        _ => 9999,
-    }
+    by_name(v, &[("DOC9871AppendixA", 0), ("DOC9871AppendixB", 1), ("DOC9871AppendixC", 2)])
 }
 
 pub fn me_actual(me: &ME, f: &mut Fields) {
@@ -906,34 +868,14 @@ pub fn me_actual(me: &ME, f: &mut Fields) {
         ME::AircraftOperationalCoordination(_) => s(f, "me.kind", "AircraftOperationalCoordination"),
         ME::AircraftIdentification(id) => {
             s(f, "me.kind", "AircraftIdentification");
-            u(
-                f,
-                "me.tc",
-                match id.tc {
-                    TypeCoding::D => 1,
-                    TypeCoding::C => 2,
-                    TypeCoding::B => 3,
-                    TypeCoding::A => 4,
-                    #[allow(unreachable_patterns)]
-                    _ => 9999,
-                },
-            );
+            u(f, "me.tc", by_name(&id.tc, &[("D", 1), ("C", 2), ("B", 3), ("A", 4)]));
             u(f, "me.ca", id.ca as u64);
             s(f, "me.cn", &id.cn);
         }
         ME::SurfacePosition(p) => {
             s(f, "me.kind", "SurfacePosition");
             u(f, "me.mov", p.mov as u64);
-            u(
-                f,
-                "me.s",
-                match p.s {
-                    StatusForGroundTrack::Invalid => 0,
-                    StatusForGroundTrack::Valid => 1,
-                    #[allow(unreachable_patterns)]
-                    _ => 9999,
-                },
-            );
+            u(f, "me.s", by_name(&p.s, &[("Invalid", 0), ("Valid", 1)]));
             u(f, "me.trk", p.trk as u64);
             u(f, "me.t", p.t as u64);
             u(f, "me.f", cpr_u(&p.f));
@@ -978,16 +920,7 @@ pub fn me_actual(me: &ME, f: &mut Fields) {
                 #[allow(unreachable_patterns)]
                 _ => s(f, "me.sub", "<new variant>"),
             }
-            u(
-                f,
-                "me.vrsrc",
-                match v.vrate_src {
-                    VerticalRateSource::BarometricPressureAltitude => 0,
-                    VerticalRateSource::GeometricAltitude => 1,
-                    #[allow(unreachable_patterns)]
-                    _ => 9999,
-                },
-            );
+            u(f, "me.vrsrc", by_name(&v.vrate_src, &[("BarometricPressureAltitude", 0), ("GeometricAltitude", 1)]));
             u(f, "me.vrsign", sign_u(&v.vrate_sign));
             u(f, "me.vr", v.vrate_value as u64);
             u(f, "me.gnsssign", sign_u(&v.gnss_sign));
@@ -1006,34 +939,8 @@ pub fn me_actual(me: &ME, f: &mut Fields) {
         }
         ME::AircraftStatus(a) => {
             s(f, "me.kind", "AircraftStatus");
-            s(
-                f,
-                "me.st",
-                match a.sub_type {
-                    AircraftStatusType::NoInformation => "NoInformation",
-                    AircraftStatusType::EmergencyPriorityStatus => "EmergencyPriorityStatus",
-                    AircraftStatusType::ACASRaBroadcast => "ACASRaBroadcast",
-                    AircraftStatusType::Reserved => "Reserved",
-                    #[allow(unreachable_patterns)]
-                    _ => "<new variant>",
-                },
-            );
-            u(
-                f,
-                "me.emergency",
-                match a.emergency_state {
-                    EmergencyState::None => 0,
-                    EmergencyState::General => 1,
-                    EmergencyState::Lifeguard => 2,
-                    EmergencyState::MinimumFuel => 3,
-                    EmergencyState::NoCommunication => 4,
-                    EmergencyState::UnlawfulInterference => 5,
-                    EmergencyState::DownedAircraft => 6,
-                    EmergencyState::Reserved2 => 7,
-                    #[allow(unreachable_patterns)]
-                    _ => 9999,
-                },
-            );
+            s(f, "me.st", &vname(&a.sub_type).0);
+            u(f, "me.emergency", by_name(&a.emergency_state, &[("None", 0), ("General", 1), ("Lifeguard", 2), ("MinimumFuel", 3), ("NoCommunication", 4), ("UnlawfulInterference", 5), ("DownedAircraft", 6), ("Reserved2", 7)]));
             u(f, "me.squawk", a.squawk as u64);
         }
         ME::TargetStateAndStatusInformation(t) => {
